@@ -8,6 +8,7 @@ use crate::mon::*;
 use crate::world::*;
 use crate::wrun::*;
 use num_bigint::BigUint;
+use num_traits::Zero as _;
 use revm::primitives::{SpecId, U256};
 use serde_json::{json, Value};
 
@@ -203,7 +204,10 @@ fn check_c08(case: &Case, i: usize, tx: &TxSpec, pre: &World, post: &World, out:
         let cb_pre = big(&pre.accounts.get(&cb).map(|a| a.balance).unwrap_or_default());
         let cb_post = big(&post.accounts.get(&cb).map(|a| a.balance).unwrap_or_default());
         let s_post = big(&post.accounts.get(&tx.caller).map(|a| a.balance).unwrap_or_default());
-        let sd_overflow = sd_completed.iter().any(|r| r.target != r.contract && big(&pre.accounts.get(&r.target).map(|a| a.balance).unwrap_or_default()) + big(&r.value) >= two256);
+        // a wrapping credit removes exactly 2^256 from the sum; the credited balance may have grown
+        // inside the transaction, so the pre-transaction balance alone does not show it
+        let sd_overflow = sd_completed.iter().any(|r| r.target != r.contract && big(&pre.accounts.get(&r.target).map(|a| a.balance).unwrap_or_default()) + big(&r.value) >= two256)
+            || (dir == "destroyed" && !amount.is_zero() && (&amount % &two256).is_zero() && sd_completed.iter().any(|r| r.target != r.contract && !r.value.is_zero()));
         let _ = &cb_pre;
         // the coinbase ends exactly at 2^256-1 and what is missing is at most the reward it was due
         // (its balance may have come close to the maximum inside the transaction)
@@ -270,7 +274,10 @@ fn check_c09(case: &Case, i: usize, tx: &TxSpec, pre: &World, post: &World, out:
     let produced = ops[0x32] > 0 || ops[0x33] > 0 || ops[0x41] > 0;
     let party_is_target = tx.to == Some(coinbase) || tx.to == Some(sender);
     let auth_touches = tx.auth_list.as_ref().map(|l| l.iter().any(|a| a.authority == Some(sender) || a.authority == Some(coinbase))).unwrap_or(false);
-    if sender_has_code || named || produced || party_is_target || auth_touches {
+    // ground truth from the inspector: did any nested frame call, create or name as beneficiary
+    // one of the fee parties (addresses can be computed, e.g. 0x..c1 + 10 = 0x..cb)
+    let reached = mon.frame_targets.contains(&sender) || mon.frame_targets.contains(&coinbase);
+    if sender_has_code || named || produced || party_is_target || auth_touches || reached {
         rep.count("c09_closed_form_skipped(fee party nameable)");
         return;
     }
